@@ -70,3 +70,15 @@ package capacity
 //@   assert-at call fillSpaceListBySize exact-target: arg3 == targetSize
 //@   assert-at call fillSpaceListBySize from-zero: arg2 == 0
 //@   assert-at call generateFillSpaceListBySize reuse-before-create: arg3 == targetSize && 0 <= arg2 && arg2 <= arg3
+
+// ---- per-directory configuration (C15): every directory is filled for its own size, starting from nothing
+//@ func (*SpaceKeeper).ConfigureByPath
+//@   assert-at call fillSpaceListByPathSize each-directory-starts-from-zero-with-its-own-size: arg0 == absDirs[i] && len(arg1) == 0 && arg3 == 0 && arg4 == sizes[i]
+//@   assert-at call generateFillSpaceListByPathSize continues-with-what-was-reused-in-that-directory: arg1 == absDirs[i] && arg2 == lastresult("fillSpaceListByPathSize", 0) && arg3 == lastresult("fillSpaceListByPathSize", 1)
+
+// ---- selection by counts (C15): never more spaces of a bit length than asked for
+//@ func fillSpaceListByBitLength
+//@   requires counts-start-within-the-request: currentCount != nil && targetCount != nil && currentCount != targetCount && (forall b int :: has(targetCount, b) ==> 0 <= targetCount[b] && (has(currentCount, b) ==> currentCount[b] <= targetCount[b]))
+//@   ensures never-more-than-asked-for: forall b int :: has(targetCount, b) && has(result1, b) ==> result1[b] <= targetCount[b]
+//@   loop * invariant within-the-request: currentCount != targetCount && (forall b int :: has(targetCount, b) && has(currentCount, b) ==> currentCount[b] <= targetCount[b]) && (forall b int :: has(targetCount, b) ==> 0 <= targetCount[b])
+//@   loop #2 invariant counting-for-the-current-bit-length: has(targetCount, bl) && count == targetCount[bl]
